@@ -68,3 +68,16 @@ def header_cases(seed: int, limit: int | None):
     for k, pre in enumerate(["# c\n", "\n", "@t\n", "Feature: f\n", "# language: en\n", "# language: xx\n"]):
         cases.append((f"header-pos:{k}", pre + "# language: fr\nFonctionnalité: f\n", "en"))
     return cases
+
+
+def star_cases():
+    """'* x' and the English step keywords as step lines in every dialect (recognised only where the dialect lists them)."""
+    langs = master_dialects()
+    out = []
+    for d in sorted(langs):
+        D = langs[d]
+        for k, kw in enumerate(["* ", "Given ", "And ", "But ", "*", "When "]):
+            body = f"{D['feature'][0]}: f\n  {D['scenario'][0]}: s\n    {kw}x y\n"
+            out.append((f"star:{d}:{k}:default", body, d))
+            out.append((f"star:{d}:{k}:header", f"# language: {d}\n" + body, "en"))
+    return out
